@@ -397,6 +397,36 @@ pub fn c01_cases(rng: &mut Rng, tier: &str, out: &mut Out) {
         }
     }
     let _ = count;
+    // compressed archives whose inner stream puts a foreign block's header / a run's end at
+    // every offset around a compression-block boundary: two files started up front, a first run
+    // of `a` swept over a window around (compression block - framing), then a short run of `b`,
+    // then `a` again inside the next compression block (scaled constants: the whole window;
+    // production: a few sizes around the 4 MiB boundary)
+    let bl: usize = if cfg!(feature = "scaled") { 256 } else { 4 * 1024 * 1024 };
+    let framing = 2 * 18 + 2 * 17;
+    let sweep: Vec<usize> = if cfg!(feature = "scaled") {
+        let w = if tier == "thorough" { 40 } else { 20 };
+        (bl - framing - w..=bl - framing + w).collect()
+    } else if tier == "thorough" {
+        (bl - framing - 2..=bl - framing + 2).collect()
+    } else {
+        vec![bl - framing]
+    };
+    for (k, n1) in sweep.iter().enumerate() {
+        for layers in [L_COMP, L_COMP | L_ENC] {
+            if !cfg!(feature = "scaled") && layers != L_COMP && tier != "thorough" {
+                continue;
+            }
+            let a1 = rng.bytes(*n1);
+            let nb = 1 + rng.below(40) as usize;
+            let b1 = rng.bytes(nb);
+            let na = 20 + rng.below(200) as usize;
+            let a2 = rng.bytes(na);
+            let pieces = vec![(0usize, Vec::new()), (1usize, Vec::new()), (0, a1), (1, b1), (0, a2)];
+            let plan = Plan { names: names.clone(), pieces, layers, level: *rng.pick(&[0u32, 1, 5]), recipients: 1, reader_key: 0 };
+            emit_read_case(rng, out, &format!("c01-edge{k}-{layers}"), &plan, "c01");
+        }
+    }
 }
 
 pub fn full_read_ops(rng: &mut Rng, nfiles: usize) -> Vec<Vec<u64>> {
